@@ -166,10 +166,20 @@ class Writes:
                         changed = True
 
     def _target(self, t, w, kind='w'):
+        fi = getattr(t, '_func', None)
+        in_init = fi is not None and fi.name == '__init__'
+
+        def own(x):
+            # a constructor writing its own fresh object aliases nothing
+            return in_init and isinstance(x, ast.Attribute) and \
+                isinstance(x.value, ast.Name) and x.value.id == 'self'
         if isinstance(t, ast.Attribute):
-            w.add((t.attr, 'w'))
+            if not own(t):
+                w.add((t.attr, 'w'))
         elif isinstance(t, ast.Subscript):
             b = t.value
+            if own(b):
+                return
             if isinstance(b, ast.Attribute):
                 w.add((b.attr, 'w'))
                 w.add((b.attr, 'del' if kind == 'del' else 'ins'))
@@ -476,9 +486,13 @@ class Interp:
             s0 = s2.copy()
             out.extend(self.block(s.orelse, s0) if s.orelse
                        else [(s0, ('next',))])
-            # one symbolic iteration
+            # one symbolic iteration: variables the body rebinds may carry a
+            # value from an earlier iteration
             s1 = s2
             s1.loop += 1
+            for nm in _loop_assigned(s.body):
+                if nm in s1.env:
+                    s1.env[nm] = ('phi', site, nm, s1.env[nm])
             elem = ('lv', site, it)
             for s3 in self.assign(s.target, elem, s1, s, loopvar=True):
                 for s4, flow in self.block(s.body, s3):
@@ -501,6 +515,9 @@ class Interp:
                 out.append((s2, ('next',)))
                 continue
             s2.loop += 1
+            for nm in _loop_assigned(s.body):
+                if nm in s2.env:
+                    s2.env[nm] = ('phi', self.site(s), nm, s2.env[nm])
             for s4, flow in self.block(s.body, s2):
                 s4.loop -= 1
                 if flow[0] in ('next', 'continue', 'break'):
@@ -660,20 +677,44 @@ class Interp:
                                                             st)]
         out = []
         for s2, t in self.ev(test, st):
-            c = T.truth(t)
-            if c[0] == 'c':
-                out.append((s2, bool(c[1])))
+            out.extend(self._branch_term(T.truth(t), s2, test))
+        return out
+
+    def _branch_term(self, c, st, node):
+        """Fork on an evaluated condition; conjunctions and disjunctions
+        (chained comparisons, value-context boolean operators) are split
+        into their atoms so that every assumption is atomic."""
+        if c[0] == 'c':
+            return [(st, bool(c[1]))]
+        if c[0] in ('and', 'or'):
+            is_and = c[0] == 'and'
+            out = []
+            cur = [st]
+            for part in c[1]:
+                nxt = []
+                for s in cur:
+                    for s2, pol in self._branch_term(T.truth(part), s, node):
+                        if pol == is_and:
+                            nxt.append(s2)
+                        else:
+                            out.append((s2, not is_and))
+                cur = nxt
+            out.extend((s, is_and) for s in cur)
+            return out
+        if c[0] == 'not' and c[1][0] in ('and', 'or'):
+            return [(s, not pol)
+                    for s, pol in self._branch_term(c[1], st, node)]
+        out = []
+        for pol in (True, False):
+            s3 = st.copy() if pol else st
+            fact = c if pol else T.negate(c)
+            if T.negate(fact) in s3.facts:
                 continue
-            for pol in (True, False):
-                s3 = s2.copy() if pol else s2
-                fact = c if pol else T.negate(c)
-                if T.negate(fact) in s3.facts:
-                    continue
-                if self._contradicts(fact, s3):
-                    continue
-                s3.facts.add(fact)
-                self.emit(s3, 'assume', test, cond=fact)
-                out.append((s3, pol))
+            if self._contradicts(fact, s3):
+                continue
+            s3.facts.add(fact)
+            self.emit(s3, 'assume', node, cond=fact)
+            out.append((s3, pol))
         return out
 
     def _contradicts(self, fact, st):
@@ -747,6 +788,19 @@ class Interp:
                 return o[attr]
             if attr == '__class__':
                 return ('cls', b[2])
+            if b[2] == 'DataFrame' and attr == 'flow_controlled_length':
+                # hyperframe summary (extlib.check_flow_controlled_length):
+                # len(data) + (pad_length + 1 if 'PADDED' in flags else 0)
+                ln = ('call', 'len', (o.get('data', T.C(b'')),), None)
+                fl = o.get('flags')
+                if fl is not None and fl[0] == 'set' and \
+                        T.C('PADDED') in fl[1]:
+                    r = T.add(T.add(ln, o.get('pad_length', T.C(0))),
+                              T.C(1))
+                    if r is not None:
+                        return r
+                elif fl is not None and fl[0] == 'set':
+                    return ln
         if b[0] == 'cls':
             c = self.m.classes.get(b[1])
             if c is not None and attr in c.attrs:
@@ -789,7 +843,11 @@ class Interp:
                         out.append((s3, ('slice', b, tlo, thi)))
                 continue
             for s3, k in self.ev(e.slice, s2):
-                lev = self.emit(s3, 'load', e, container=b, key=k)
+                clen = None
+                if b[0] == 'obj' and '$elems' in s3.objs.get(b, {}):
+                    clen = sum(1 for z in s3.objs[b]['$elems']
+                               if z[0] != 'splat')
+                lev = self.emit(s3, 'load', e, container=b, key=k, clen=clen)
                 pexc = self.R.op_excs.get(id(e))
                 if pexc and id(e) not in self.R.discharged and \
                         self.fork_raises:
@@ -1489,6 +1547,28 @@ class Interp:
                           value=val)
                 res.append((s2, val))
         return res
+
+
+def _loop_assigned(stmts):
+    """Names (re)bound by assignments inside a loop body."""
+    out = set()
+    stack = list(stmts)
+    while stack:
+        n = stack.pop()
+        if isinstance(n, (ast.FunctionDef, ast.AsyncFunctionDef,
+                          ast.ClassDef, ast.Lambda)):
+            continue
+        tgts = []
+        if isinstance(n, ast.Assign):
+            tgts = n.targets
+        elif isinstance(n, (ast.AugAssign, ast.AnnAssign)):
+            tgts = [n.target]
+        for t in tgts:
+            for x in ast.walk(t):
+                if isinstance(x, ast.Name) and isinstance(x.ctx, ast.Store):
+                    out.add(x.id)
+        stack.extend(ast.iter_child_nodes(n))
+    return out
 
 
 def _opname(op):
